@@ -33,7 +33,7 @@ fn f64_lit(f: f64) -> String {
 /// a fresh value (with its model) built by macros / conversions / parsing
 fn new_value(cfg: &GenCfg) -> Result<(Value, J), Violation> {
     trace::bump(C::dom_built_values);
-    Ok(match draw(26) {
+    Ok(match draw(30) {
         0 => (Value::new(), J::Null),
         1 => {
             let b = draw(2) == 1;
@@ -97,6 +97,29 @@ fn new_value(cfg: &GenCfg) -> Result<(Value, J), Violation> {
             let v = libcall("to_value", || sonic_rs::to_value(&crate::jser::SerJ(&j)))?.map_err(|e| Violation::new("dom/to_value", format!("to_value failed: {}", e)))?;
             (v, canonical_numbers(&j))
         }
+        26 => {
+            // an owned raw number: RawNumber -> to_value keeps the literal in a FastStr node
+            let lit = gen::gen_number();
+            let rn = libcall("from_str::<RawNumber>", || sonic_rs::from_str::<sonic_rs::RawNumber>(&lit))?.map_err(|e| Violation::new("mismatch/parse-error", format!("from_str::<RawNumber>({:?}) failed: {}", lit, e)))?;
+            let v = libcall("to_value(RawNumber)", || sonic_rs::to_value(&rn))?.map_err(|e| Violation::new("dom/to_value", format!("to_value(RawNumber {:?}) failed: {}", lit, e)))?;
+            (v, J::Num(lit))
+        }
+        27 => {
+            // FromStr is documented as "a string value holding a copy of the text", not as a parse
+            let s = gen::gen_string(cfg);
+            let v = libcall("str::parse::<Value>", || s.parse::<Value>())?.map_err(|_| Violation::new("dom/FromStr", "parse::<Value> failed"))?;
+            (v, J::Str(s))
+        }
+        28 => match draw(3) {
+            0 => {
+                if Value::new_f64(f64::NAN).is_some() || Value::new_f64(f64::NEG_INFINITY).is_some() {
+                    return Err(Violation::new("dom/new_f64", "new_f64 accepted a non-finite number"));
+                }
+                (Value::new_f64(2.5).expect("finite"), J::Num("2.5".into()))
+            }
+            1 => (Value::new_f64(-0.0).expect("finite"), J::Num("-0.0".into())),
+            _ => (Value::new_f64(1e300).expect("finite"), J::Num("1e300".into())),
+        },
         16 => {
             if draw(2) == 0 {
                 (Value::from(Some(5u64)), J::Num("5".into()))
@@ -155,7 +178,10 @@ fn parsed_start(cfg: &GenCfg) -> Result<(Value, J), Violation> {
     trace::bump(C::dom_parsed_roots);
     let j = if chance(1, 6) { gen::gen_scalar(cfg) } else { gen::gen_container(cfg) };
     let text = gen::render(&j, &Style { ws: draw(3), esc: draw(3) });
-    let v = if draw(3) == 0 {
+    let v = if chance(1, 5) {
+        // numbers kept as their literal text (raw-number nodes)
+        libcall("use_rawnumber", || sonic_rs::Deserializer::from_str(&text).use_rawnumber().deserialize::<Value>())?.map_err(|e| Violation::new("mismatch/parse-error", format!("use_rawnumber failed on {:?}: {}", oracle::truncate(&text), e)))?
+    } else if draw(3) == 0 {
         // the copying path (value embedded in a struct)
         let wrapped = format!("{{\"v\": {}}}", text);
         libcall("from_str::<Wrapper>", || sonic_rs::from_str::<Wrapper>(&wrapped))?.map_err(|e| Violation::new("mismatch/parse-error", format!("from_str failed on {:?}: {}", oracle::truncate(&wrapped), e)))?.v
